@@ -47,7 +47,27 @@ def replace_chain(fn: FuncInfo) -> List[Tuple[str, str]]:
             out.append((n.lineno, n.col_offset, n.args[0].value,
                         n.args[1].value))
     out.sort()
-    return [(a, b) for _, _, a, b in out]
+    pairs = [(a, b) for _, _, a, b in out]
+    # one-pass form: x.translate(TABLE) with TABLE = str.maketrans({..}) at
+    # module level.  All pairs apply simultaneously, so there is no ordering
+    # hazard; the backslash pair is listed first to say so.
+    for n in walk_no_nested(fn.node):
+        if isinstance(n, ast.Call) and isinstance(n.func, ast.Attribute) \
+                and n.func.attr == 'translate' and len(n.args) == 1:
+            t = n.args[0]
+            v = fn.module.assigns.get(t.id) if isinstance(t, ast.Name) \
+                else t
+            if isinstance(v, ast.Call) and norm(v.func) == 'str.maketrans' \
+                    and len(v.args) == 1 and isinstance(v.args[0], ast.Dict):
+                tp = []
+                for k, w in zip(v.args[0].keys, v.args[0].values):
+                    if isinstance(k, ast.Constant) and isinstance(
+                            w, ast.Constant) and isinstance(k.value, str) \
+                            and isinstance(w.value, str):
+                        tp.append((k.value, w.value))
+                tp.sort(key=lambda kv: kv[0] != '\\')
+                pairs = tp + pairs
+    return pairs
 
 
 def regex_subs(repo: Repo, fn: FuncInfo):
@@ -186,7 +206,7 @@ def run(repo: Repo, ctx) -> None:
         last_replace = max(n.lineno for n in walk_no_nested(es.node)
                            if isinstance(n, ast.Call) and isinstance(
                                n.func, ast.Attribute)
-                           and n.func.attr == 'replace')
+                           and n.func.attr in ('replace', 'translate'))
         ctx.ob('C18.R3', 'escape_string:sub-after-backslash',
                call.lineno > last_replace and 0x5C not in cs,
                'the \\u substitution runs before the backslash escape (its '
